@@ -278,3 +278,27 @@ EXTRA3 = {
 }
 for _k, _v in EXTRA3.items():
     EXTRA[_k] = EXTRA.get(_k, "") + _v
+
+# rounds d / e (DESIGN.md section 9.4)
+EXTRA4 = {
+    "C01": " Rounds d/e: any_future_answer examines every cached answer (shared with C10/C17); the cycle-head loop of the recursive solver "
+           "is left only at a fixed point (shared).",
+    "C03": " Rounds d/e: on_no_remaining_subgoals reports Success only behind a new answer and a restored caller strand; the green cut "
+           "(take_strands) is impossible unless the answer is trivial and unconstrained (guard evaluated over all assignments); push_answer rule is name-free.",
+    "C04": " Rounds d/e: fixed-point loop exits shared.",
+    "C05": " Rounds d/e: create_refinement_strand declines only for an answer without delayed subgoals; fixed-point loop exits shared.",
+    "C06": " Rounds d/e: the hypothesis goals (FromEnv ..) are inductive in the IsCoinductive table.",
+    "C09": " Rounds d/e: new obligations enter Fulfill.obligations only through push_obligation (who-may-write a field).",
+    "C10": " Rounds d/e: refinement guard, fixed-point table and loop exits shared; Forest.clock is only ever advanced.",
+    "C11": " Rounds d/e: every interruption point (false edge of the continue-callback) reaches the return only through an explicitly weaker result.",
+    "C12": " Rounds d/e: a table is published only after build_table returned (shared with C10); Stack::clear / SearchGraph::rollback_to reset "
+           "every field that push / pop / insert change.",
+    "C14": " Rounds d/e: the variable/variable kind table of relate_ty_ty is decided by symbolic evaluation (9 cells, symmetric).",
+    "C15": " Rounds d/e: the variable/variable kind table is symmetric under argument swap.",
+    "C16": " Rounds d/e: inversion is a consistent renaming (fresh variable created only inside the memo-map update keyed by the placeholder).",
+    "C23": " Rounds d/e: IdCollector::visit_ty always descends (super_visit_with on every path).",
+    "C28": " Rounds d/e: bindings of structured values pass the occurs check (which enforces universes), shared with C14; promotion applies to "
+           "the visited variable also when it is done by an OccursCheck helper.",
+}
+for _k, _v in EXTRA4.items():
+    EXTRA[_k] = EXTRA.get(_k, "") + _v
